@@ -192,6 +192,38 @@ def select_general(crate, v, mins, budget_locals):
                     sees_distance = any(c.fn is not None and c.krate == "strsim" for _, c in cv.calls()) or "usize)" in cv.b.ltys(2) or "usize)" in (cv.b.ltys(2) if cv.b.arg_count >= 2 else "")
                     if not sees_distance:
                         fs.append(fnd("C18.SELECT", cv, "candidates are dropped by a condition that does not look at their distance"))
+    # loop form of the same: an iteration that goes on to the next candidate before the distance of this one was computed,
+    # on a condition about byte lengths (`str::len`): the metric counts characters, so a difference in bytes is not a lower
+    # bound of the distance and candidates within the budget are dropped
+    for h, body in v.loops():
+        dist = [bb for bb in body if v.blocks[bb]["term"]["k"] == "call" and v.callee(bb) is not None and v.callee(bb).fn is not None and v.callee(bb).krate == "strsim"]
+        if not dist:
+            continue
+
+        def reach_in_iteration(start, avoid):
+            seen_, work_ = set(), [start]
+            while work_:
+                x_ = work_.pop()
+                if x_ in seen_ or x_ not in body or x_ in avoid:
+                    continue
+                seen_.add(x_)
+                if x_ == h and start != h:
+                    continue
+                work_.extend(v.succ[x_])
+            return seen_
+        for sb in sorted(body):
+            info = v.switch_info(sb)
+            if not info or info["kind"] not in ("bool", "int") or sb == h:
+                continue
+            if not any(d_ in reach_in_iteration(sb, set()) for d_ in dist):
+                continue
+            skips = [y for y in set(v.succ[sb]) if h in reach_in_iteration(y, set(dist)) and not any(d_ in reach_in_iteration(y, set()) for d_ in dist)]
+            if not skips:
+                continue
+            cond = canon(v, v.origin(v.blocks[sb]["term"]["discr"]))
+            if term_mentions(cond, lambda y: y[0] == "call" and (call_name(v, y) or "").split("::")[-1] == "len" and "str" in (call_name(v, y) or "")):
+                fs.append(fnd("C18.SELECT", v, "candidates are skipped, before their distance is computed, on a condition about lengths in bytes: the distance counts characters, "
+                              "so candidates within the budget are dropped", sb))
     # loop form: `best = Some((candidate, distance))` replaced only when distance < best.1
     for h, body in v.loops():
         for bb in sorted(body):
